@@ -1071,6 +1071,16 @@ func corpusCfg() []Case {
 				{Op: "endp", Kind: "ts", Rs: []Res{*mk("ts", "u", 0, 2, true, false)}},
 				{Op: "endp", Kind: "vs", Rs: []Res{*mk("vs", "x", 0, 1, true, false), *mk("vs", "v", 0, 1, true, false)}}}})
 	}
+	// Plus endpoints: the API push fails and so does the fall-back reload (the operation returns the error, NGINX still runs the
+	// old servers); the controller then retries the same update, for which the file on disk is already up to date
+	for _, k := range []string{"ing", "vs", "ts"} {
+		n := map[string]string{"ing": "b", "vs": "x", "ts": "u"}[k]
+		out = append(out, Case{Class: "corpus-plus-endp-retry", Plus: true, DynW: false, RFail: []int{1}, AFail: []int{0},
+			Ops: []Op{{Op: "enable"}, {Op: "add", Res: mk(k, n, 0, 0, true, false)},
+				{Op: "endp", Kind: k, Rs: []Res{*mk(k, n, 0, 1, true, false)}},
+				{Op: "endp", Kind: k, Rs: []Res{*mk(k, n, 0, 1, true, false)}},
+				{Op: "endp", Kind: k, Rs: []Res{*mk(k, n, 0, 1, true, false)}}}})
+	}
 	// Plus: endpoints of a VirtualServer whose route lives in another namespace, with a same-named Service there
 	out = append(out, Case{Class: "corpus-plus-xroute", Plus: true, DynW: false, RFail: []int{}, AFail: []int{},
 		Ops: []Op{{Op: "enable"}, {Op: "add", Res: mk("vs", "y", 0, 0, true, false)},
